@@ -84,7 +84,9 @@ struct TwoBases : Base, Base2 {   // two base classes
 #define VF_KEY32 "key_of_exactly_32_bytes_abcdefgh"
 #define VF_KEY33 "key_of_exactly_33_bytes_abcdefghi"
 struct LongKeys { int a = 0, b = 0, c = 0; std::string s;
-	template <class A> void Serialize(A& ar) { ar << KeyValue(VF_KEY31, a) << KeyValue(VF_KEY32, b) << KeyValue(VF_KEY33, c) << KeyValue("", s); } };   // and the empty member name
+	template <class A> void Serialize(A& ar) { ar << KeyValue(VF_KEY31, a) << KeyValue(VF_KEY32, b) << KeyValue(VF_KEY33, c) << KeyValue("s", s); } };
+struct EmptyKey { int a = 0; std::string s; int z = 0;   // the empty string as a member name (not an XML Name: excluded for XML like the other non-Name keys, KF-44)
+	template <class A> void Serialize(A& ar) { ar << KeyValue("a", a) << KeyValue("", s) << KeyValue("z", z); } };
 struct External { int64_t id = 0; std::u16string label; };   // serialized by a global SerializeObject
 template <class A> void SerializeObject(A& a, External& v) { a << KeyValue("id", v.id) << KeyValue("label", v.label); }
 
@@ -220,6 +222,7 @@ template <class T> struct G<std::priority_queue<T>> { static std::priority_queue
 template <> struct G<Base> { static Base make(vf::Src& s, const GenCtx& g) { Base b; b.baseId = s.integer<int>(); b.baseName = gen<std::string>(s, g); return b; } };
 template <> struct G<DerivedLate> { static DerivedLate make(vf::Src& s, const GenCtx& g) { DerivedLate d; static_cast<Base&>(d) = gen<Base>(s, g); d.first = s.integer<int>(); d.last = gen<std::string>(s, g); return d; } };
 template <> struct G<TwoBases> { static TwoBases make(vf::Src& s, const GenCtx& g) { TwoBases d; static_cast<Base&>(d) = gen<Base>(s, g); d.tag = s.integer<int64_t>(); d.flag = s.coin(); return d; } };
+template <> struct G<EmptyKey> { static EmptyKey make(vf::Src& s, const GenCtx& g) { EmptyKey d; d.a = s.integer<int>(); d.s = gen<std::string>(s, g); d.z = s.integer<int>(); return d; } };
 template <> struct G<LongKeys> { static LongKeys make(vf::Src& s, const GenCtx& g) { LongKeys d; d.a = s.integer<int>(); d.b = s.integer<int>(); d.c = s.integer<int>(); d.s = gen<std::string>(s, g); return d; } };
 template <> struct G<Derived> { static Derived make(vf::Src& s, const GenCtx& g) { Derived d; static_cast<Base&>(d) = gen<Base>(s, g); d.ratio = gen<double>(s, g); d.items = gen<std::vector<int>>(s, g); d.hasExtra = s.coin(); d.extra = d.hasExtra ? s.integer<int>() : 0; d.origin = gen<Pt>(s, g); return d; } };
 
@@ -249,6 +252,7 @@ template <class T> struct E<std::priority_queue<T>> { static bool eq(std::priori
 template <> struct E<Base> { static bool eq(const Base& a, const Base& b) { return a.baseId == b.baseId && a.baseName == b.baseName; } };
 template <> struct E<DerivedLate> { static bool eq(const DerivedLate& a, const DerivedLate& b) { return E<Base>::eq(a, b) && a.first == b.first && a.last == b.last; } };
 template <> struct E<TwoBases> { static bool eq(const TwoBases& a, const TwoBases& b) { return E<Base>::eq(a, b) && a.tag == b.tag && a.flag == b.flag; } };
+template <> struct E<EmptyKey> { static bool eq(const EmptyKey& a, const EmptyKey& b) { return a.a == b.a && a.s == b.s && a.z == b.z; } };
 template <> struct E<LongKeys> { static bool eq(const LongKeys& a, const LongKeys& b) { return a.a == b.a && a.b == b.b && a.c == b.c && a.s == b.s; } };
 template <> struct E<Derived> { static bool eq(const Derived& a, const Derived& b) { return E<Base>::eq(a, b) && mdl::eq(a.ratio, b.ratio) && a.items == b.items && a.hasExtra == b.hasExtra && a.extra == b.extra && a.origin == b.origin; } };
 template <> struct E<External> { static bool eq(const External& a, const External& b) { return a.id == b.id && a.label == b.label; } };
@@ -273,6 +277,7 @@ template <> struct Sh<External> { static std::string show(const External& v) { r
 template <> struct Sh<Base> { static std::string show(const Base& v) { return vf::cat("Base(", v.baseId, ",", bytes_show(v.baseName), ")"); } };
 template <> struct Sh<DerivedLate> { static std::string show(const DerivedLate& v) { return vf::cat("DerivedLate(", v.first, ",", v.baseId, ",", bytes_show(v.baseName), ",", bytes_show(v.last), ")"); } };
 template <> struct Sh<TwoBases> { static std::string show(const TwoBases& v) { return vf::cat("TwoBases(", v.baseId, ",", bytes_show(v.baseName), ",", v.tag, ",", v.flag, ")"); } };
+template <> struct Sh<EmptyKey> { static std::string show(const EmptyKey& v) { return vf::cat("EmptyKey(", v.a, ",", bytes_show(v.s), ",", v.z, ")"); } };
 template <> struct Sh<LongKeys> { static std::string show(const LongKeys& v) { return vf::cat("LongKeys(", v.a, ",", v.b, ",", v.c, ",", bytes_show(v.s), ")"); } };
 template <> struct Sh<Derived> { static std::string show(const Derived& v) { return vf::cat("Derived(", v.baseId, ",", bytes_show(v.baseName), ",", v.ratio, ",n=", v.items.size(), ",", v.hasExtra, ",", v.extra, ",", v.origin.x, ")"); } };
 template <class R, class P> struct Sh<std::chrono::duration<R, P>> { static std::string show(const std::chrono::duration<R, P>& v) { return vf::cat("dur<", P::num, "/", P::den, ">(", v.count(), ")"); } };
@@ -327,6 +332,7 @@ template <class T> struct F<std::unique_ptr<T>> { static void f(const std::uniqu
 template <class T> struct F<std::shared_ptr<T>> { static void f(const std::shared_ptr<T>& v, Features& x, int d) { if (!v) x.null = true; else mdl::features(*v, x, d); } };
 template <> struct F<DerivedLate> { static void f(const DerivedLate& v, Features& x, int d) { x.nested = true; mdl::features(v.baseName, x, d + 1); mdl::features(v.last, x, d + 1); } };
 template <> struct F<TwoBases> { static void f(const TwoBases& v, Features& x, int d) { x.nested = true; mdl::features(v.baseName, x, d + 1); } };
+template <> struct F<EmptyKey> { static void f(const EmptyKey& v, Features& x, int d) { x.nested = true; mdl::features(v.s, x, d + 1); } };
 template <> struct F<LongKeys> { static void f(const LongKeys& v, Features& x, int d) { x.nested = true; mdl::features(v.s, x, d + 1); } };
 template <> struct F<Derived> { static void f(const Derived& v, Features& x, int d) { x.nested = true; mdl::features(v.baseName, x, d + 1); mdl::features(v.ratio, x, d + 1); mdl::features(v.items, x, d + 1); } };
 template <> struct F<External> { static void f(const External& v, Features& x, int d) { mdl::features(v.label, x, d + 1); mdl::features(v.id, x, d + 1); } };
